@@ -1,7 +1,7 @@
 (* Props/C09.v — The k-space trajectory is the running integral of the gradients.
    Only statements, each closed by [exact] of a lemma from Proofs/KSpaceProofs.v, with Print Assumptions. *)
 From Coq Require Import ZArith QArith Qabs List Bool Arith Lia Lqa.
-From PV Require Import Base.QUtil Base.PWL Gen.GenExport Model.Export Model.KSpace Proofs.KSpaceProofs Proofs.PrimProofs.
+From PV Require Import Base.QUtil Base.PWL Gen.GenExport Model.Export Model.KSpace Proofs.KSpaceProofs Proofs.PrimProofs Proofs.ExportProofs Proofs.ExportArea Proofs.KSpaceFinal Proofs.KSpaceBridge.
 Import ListNotations.
 Open Scope Q_scope.
 
@@ -37,6 +37,20 @@ Theorem C09_period_table : forall M evs t, ev_sorted evs -> k_tab M evs t = k_at
 Proof. exact k_tab_is_k_at. Qed.
 Print Assumptions C09_period_table.
 
+(* The loop of calculate_kspace as the code writes it — two separate sorted lists t_excitation / t_refocusing
+   (pulses of other uses are in neither), period starts = 0 and the union of both lists, one pointer per list
+   advanced with min(len - 1, ii + 1), excitation tested before refocusing — equals, for every strictly
+   time-sorted pulse list with positive times, the fold over the pulses at or before t, and therefore the
+   specification "integral since the last excitation, negated at each refocusing". *)
+Theorem C09_period_loop : forall M evs t, ev_sorted_strict evs -> Forall (fun e => 0 < fst e) evs ->
+  k_loop M evs t = k_at M evs t.
+Proof. exact k_loop_is_k_at. Qed.
+Print Assumptions C09_period_loop.
+Theorem C09_period_loop_is_spec : forall M evs t, ev_sorted_strict evs -> Forall (fun e => 0 < fst e) evs ->
+  k_loop M evs t == spec_k M (upto t evs) t.
+Proof. exact k_loop_is_spec. Qed.
+Print Assumptions C09_period_loop_is_spec.
+
 Theorem C09_adc_times_formula : forall start a i, (i < adc_n a)%nat ->
   length (adc_sample_times start a) = adc_n a /\
   nth i (adc_sample_times start a) 0
@@ -58,20 +72,49 @@ Theorem C09_prim_total : forall p t, sorted_strict (times p) -> tlast p <= t -> 
 Proof. exact prim_total. Qed.
 Print Assumptions C09_prim_total.
 
-(* PARTIAL (name kept): without excitation / refocusing pulses the final k is the area of the (padded)
-   exported waveform.  Missing for the full statement "sum of the areas of all gradient events":
-   area (padded w) == area w for zero end values, and area (join ps) == sum of the piece areas for an
-   edge-consistent chain (both are checked on the implementation by the oracle: C09/final-k-no-rf). *)
-Theorem C09_no_rf_final_is_sum_of_areas_partial : forall w T, w <> [] ->
-  sorted_strict (times (padded w)) -> tlast (padded w) <= T -> 0 <= tfirst (padded w) ->
-  k_at (moment w) [] T == area (padded w).
-Proof. exact no_rf_final_is_area. Qed.
-Print Assumptions C09_no_rf_final_is_sum_of_areas_partial.
+(* ... and in the composed form: between a <= b the antiderivative grows by the area of p restricted to [a, b] *)
+Theorem C09_prim_is_integral_restricted : forall p a b, sorted_strict (times p) -> a <= b ->
+  prim p b - prim p a == area (cut_right a (cut_left b p)).
+Proof. exact prim_is_integral_restricted. Qed.
+Print Assumptions C09_prim_is_integral_restricted.
+
+(* the joined export of an edge-consistent channel has the sum of the areas of its pieces; the get_gradients
+   padding adds (vfirst + vlast) * teps / 2, i.e. nothing for a waveform that starts and ends at zero; the area
+   of a trapezoid piece is amplitude * (rise/2 + flat + fall/2) *)
+Theorem C09_area_join : forall ps, EdgeConsistent ps -> area (join ps) == sum_areas ps.
+Proof. exact area_join. Qed.
+Print Assumptions C09_area_join.
+Theorem C09_area_padded : forall w, w <> [] -> area (padded w) == area w + (vfirst w + vlast w) * teps * (1 # 2).
+Proof. exact area_padded. Qed.
+Print Assumptions C09_area_padded.
+Theorem C09_area_trap_piece : forall raster start amp rise flat fall delay p,
+  piece raster start (Trap amp rise flat fall delay) = Some p -> (flat == 0 \/ eps < flat) ->
+  area p == amp * (rise * (1 # 2) + flat + fall * (1 # 2)).
+Proof. exact area_trap_piece. Qed.
+Print Assumptions C09_area_trap_piece.
+
+(* For a sequence without excitation / refocusing pulses (pulses of other uses allowed) the final k-space
+   position of a channel — calculate_kspace's recurrence on the antiderivative of the padded export, at any
+   time T at or after the end of the padding — is the sum of the areas of all gradient pieces of the channel,
+   for every edge-consistent channel that starts at t >= 0 from zero and ends at zero. *)
+Theorem C09_no_rf_final_is_sum_of_areas : forall ps evs T, EdgeConsistent ps -> ps <> [] ->
+  filter is_pulse evs = [] ->
+  vfirst (hd [] ps) == 0 -> vlast (last ps []) == 0 -> 0 <= tfirst (hd [] ps) ->
+  tlast (last ps []) + 2 * teps <= T ->
+  k_at (moment (join ps)) evs T == sum_areas ps.
+Proof. exact no_rf_final_is_sum_of_areas. Qed.
+Print Assumptions C09_no_rf_final_is_sum_of_areas.
 
 (* Non-vacuity / sanity *)
 Example C09_classify_example :
   classify None = Exc /\ classify (Some rf_use_refocusing) = Ref /\ classify (Some [105%Z]) = Other.
 Proof. vm_compute. repeat split. Qed.
+
+Example C09_loop_example :
+  (* the literal loop on the same pulses, incl. the pointer that stays on the last excitation *)
+  k_loop (fun t => t) [(1, Exc); (2, Other); (3, Ref); (5, Ref)] 6 == 1 /\
+  loop_table (fun t => t) [(1, Exc); (3, Ref)] = [(0, - 0); (1, - (1)); (3, - (2) * 3 - - (1))].
+Proof. split; [vm_compute; reflexivity|reflexivity]. Qed.
 
 Example C09_spin_echo_example :
   (* M(t) = t; excitation at 1, refocusing at 3: k(4) = -(3 - 1) + (4 - 3) = -1 *)
